@@ -1,4 +1,5 @@
 import GeffProofs.KVHistory
+import GeffProofs.WriteOrderSpec
 /-! # C06 — existing geffs are never clobbered implicitly; overwrite replaces completely
 
 Model: `GeffModel/KV.lean` (see `GeffProps/C05.lean`).  `checkForGeff` is `check_for_geff` after the
@@ -114,6 +115,42 @@ theorem C06_histories (d : Docs) (kind : Kind) (f : Fmt) (validate : Bool) (base
   cases hl : lastWritten none hist with
   | none => rw [hl] at h2; exact h2
   | some c => rw [hl] at h2; exact ⟨h2.holds, h2.attr, h2.owned⟩
+
+/-! ### every entry point guards before its first mutation (translator T6, regenerated on every run) -/
+section order
+open Geff.WriteOrderSpec Gen.WriteOrder
+
+/-- `check_for_geff` only opens the store read-only (the D13 repair): the guard itself mutates nothing -/
+theorem guard_is_read_only :
+    Gen.WriteOrder.translationOk = true ∧ Gen.WriteOrder.checkForGeff ≠ [] ∧
+    Gen.WriteOrder.checkForGeff.all (fun e => e.1 == "call:open_group" && e.2.2 == ["mode='r'"]) = true := by
+  decide +kernel
+
+/-- `write_arrays` and `geff.write`: the guard is the first store-relevant statement; `geff.write`
+then hands over to the backend writer without an `overwrite` argument (so the nested guard of
+`write_arrays` runs with overwrite off — the model's `apiWrite`) -/
+theorem guard_first_write_arrays_and_api :
+    guardShape writeArrays 0 "geff_store" = true ∧
+    names apiWrite = ["call:check_for_geff", "call:delete_geff", "raise:FileExistsError", "call:write"] ∧
+    guardShape apiWrite 0 "store" = true ∧ unconditional apiWrite 3 = true ∧
+    detailHas apiWrite 3 "overwrite=absent" = true ∧ detailHas apiWrite 3 "on=backend_io" = true ∧
+    names writeDicts = ["raise:ValueError", "call:write_arrays"] ∧ detailHas writeDicts 1 "overwrite=absent" = true := by
+  decide +kernel
+
+/-- the converters: guard before the segmentation array and before `write_arrays` / `NxBackend.write`,
+which are called without `overwrite` -/
+theorem guard_first_converters :
+    names (only ["call:check_for_geff", "call:delete_geff", "raise:FileExistsError", "call:open_array",
+                 "call:write_arrays"] fromCtc) =
+      ["call:check_for_geff", "call:delete_geff", "raise:FileExistsError", "call:open_array", "call:write_arrays"] ∧
+    guardShape fromCtc 2 "geff_path" = true ∧ detailHas fromCtc 8 "overwrite=absent" = true ∧
+    names preliminaryChecks = ["raise:FileNotFoundError", "call:check_for_geff", "call:delete_geff",
+      "raise:FileExistsError"] ∧
+    guardShape preliminaryChecks 1 "geff_path" = true ∧
+    names fromTrackmate = ["call:_preliminary_checks", "call:write"] ∧
+    unconditional fromTrackmate 0 = true ∧ detailHas fromTrackmate 1 "overwrite=absent" = true := by
+  decide +kernel
+end order
 
 /-! ### non-vacuity and the recorded exception -/
 
